@@ -42,3 +42,9 @@ Theorem c02_operations_act_on_classes D (pos : nat -> vec) (num : nat -> nat) N 
   (i < N)%nat -> sg (st i) = st' (sg i).
 Proof. intros HD Hd. exact (normalises_translations D HD pos num N Hd g s sg st st' i). Qed.
 Print Assumptions c02_operations_act_on_classes.
+
+(** Hand-modelled code this property's model and correspondences were written against is unchanged (the permutation search and the representation classes; the coset projectors / coset sums; the first-order classes):
+    whole-function match against the recorded source, regenerated on every run. *)
+From SymfcG Require Import ShapesSpg ShapesCoset ShapesO1.
+Theorem c02_recorded_sources_in_force : ShapesSpg_as_recorded = true /\ ShapesCoset_as_recorded = true /\ ShapesO1_as_recorded = true.
+Proof. repeat split; reflexivity. Qed.
